@@ -37,7 +37,19 @@ def summarize(report):
     return {"sanitizer": kind, "function": fn, "access": f"{rw.group(1)} {rw.group(2)}" if rw else None}
 
 
-def run(cases, timeout=600):
+def op_of(fn):
+    """line-protocol op exercising a C function (to stop re-reporting the same defect)"""
+    if not fn:
+        return None
+    if fn == "Buffer_init":
+        return None            # the constructor is the first line of every case
+    for pre, op in (("Buffer_", "c.buf."), ("AEAD_", "c.aead."), ("HeaderProtection_", "c.hp.")):
+        if fn.startswith(pre):
+            return op + fn[len(pre):].replace("_getter", "")
+    return None
+
+
+def run(cases, timeout=600, per_function=2):
     """returns (witnesses, executed): witnesses = [{case, index, report, summary}]"""
     from harness import tree
     root = tree.build(asan=True)
@@ -46,9 +58,11 @@ def run(cases, timeout=600):
     with os.fdopen(fd, "w") as f:
         json.dump(cases, f)
     found, start, executed = [], 0, 0
+    counts, skip_ops = {}, set()
     try:
         while start < len(cases):
-            r = subprocess.run(["/venv/bin/python", os.path.join(HERE, "c04_asan_child.py"), root, VERIF, path, str(start)],
+            r = subprocess.run(["/venv/bin/python", os.path.join(HERE, "c04_asan_child.py"), root, VERIF, path, str(start),
+                                json.dumps(sorted(skip_ops))],
                                capture_output=True, text=True, env=env, timeout=timeout)
             for m in re.finditer(r"^@corrupt (\d+) (.*)$", r.stdout, re.M):
                 i = int(m.group(1))
@@ -68,6 +82,11 @@ def run(cases, timeout=600):
             j = int(ops[-1]) if ops else len(cases[i]) - 1
             found.append({"index": i, "case": cases[i], "op_index": j, "report": rep[-4000:], "summary": summarize(rep)})
             start = i + 1
+            # after `per_function` reports in the same C function, stop exercising the op that reaches it
+            fn = found[-1]["summary"]["function"]
+            counts[fn] = counts.get(fn, 0) + 1
+            if counts[fn] >= per_function and op_of(fn) and j > 0 and cases[i][j].split()[0] == op_of(fn):
+                skip_ops.add(op_of(fn))
     finally:
         os.unlink(path)
     return found, executed
